@@ -110,6 +110,42 @@ def check_column_stores(chk, prefix, r, others, lv):
     return done
 
 
+def check_initial_state(ctx, chk, prefix):
+    """the first state of an environment (and what env.generate_initial_state() hands out) is the
+    tensorised network *after* Network.reset: State.generate_initial_state returns the result of
+    network.reset(<State.tensorize(network)>), not the raw tensorised state"""
+    from sa.interp import Interp
+    from sa.canon import Canon
+    NR, TZ = "nasim.envs.network:Network.reset", "nasim.envs.state:State.tensorize"
+    desc = ("State.generate_initial_state(network) returns Network.reset applied to the "
+            "tensorised network (public hosts reachable and discovered)")
+    try:
+        fi = ctx.repo.func("nasim.envs.state", "State.generate_initial_state")
+    except Exception as e:
+        chk.undecided(f"{prefix}.reset-state", desc, str(e)[:100])
+        return
+    ps = fi.params
+    ip = Interp(ctx.repo, ctx.types, param_types={ps[1]: "Network"} if len(ps) > 1 else {},
+                no_inline=(NR, TZ))
+    s = ip.run(fi, {ps[0]: ("classref", "State")})
+    cn = Canon(ip, ctx.layout)
+    resets = [ev for ev in s.events if ev.kind == "call" and ev.data["fname"] == NR]
+    tens = [ev for ev in s.events if ev.kind == "call" and ev.data["fname"] == TZ]
+    if len(resets) != 1 or len(tens) != 1 or len(s.returns) != 1:
+        chk.undecided(f"{prefix}.reset-state", desc, f"{len(resets)} Network.reset call(s), "
+                      f"{len(tens)} State.tensorize call(s), {len(s.returns)} return(s): only the "
+                      "one-call form is decoded", fi.module.path)
+        return
+    ret = s.returns[0][1]
+    ok = ret == resets[0].data["result"] and not resets[0].pc \
+        and resets[0].data["args"][-1] == tens[0].data["result"]
+    detail = f"returns {cn.show(ret)[:120]}"
+    if ret == tens[0].data["result"]:
+        detail += " - the tensorised network before Network.reset: no host is reachable or " \
+                  "discovered in it"
+    chk.ob(f"{prefix}.reset-state", desc, ok, detail, fi.module.path)
+
+
 def check_reset(ctx, chk, prefix):
     r, cells, attrs, others = reset_facts(ctx)
     cn = r.cn
@@ -137,6 +173,7 @@ def check_reset(ctx, chk, prefix):
     chk.ob(f"{prefix}.reset-state",
            "NASimEnv.reset: current_state := Network.reset(current_state) (fresh copy, then reset "
            "stores)", ok, detail, r.fi.module.path)
+    check_initial_state(ctx, chk, prefix)
     net_reset = r.enters("nasim.envs.network:Network.reset")
     chk.ob(f"{prefix}.reset-call", "NASimEnv.reset calls Network.reset exactly once, "
            "unconditionally", len(net_reset) == 1 and not net_reset[0].pc,
